@@ -16,6 +16,10 @@ CONS = ['c%07x-2222-4222-8222-%012x' % (i, i) for i in range(1, 7)]
 AGGS = ['a%07x-3333-4333-8333-%012x' % (i, i) for i in range(1, 4)]
 GHOST_RP = 'deadbeef-dead-4ead-8ead-deadbeefdead'
 GHOST_AGG = 'a0000bad-3333-4333-8333-00000000dead'
+# aggregate uuids in spellings the schema admits but that are not canonical
+# (stored verbatim, so they are aggregates of their own)
+ODD_AGGS = ['A0000009-3333-4333-8333-00000000000F',
+            'a000000833334333833300000000000e']
 CLASSES = ['VCPU', 'MEMORY_MB', 'DISK_GB', 'CUSTOM_PV_A']
 CUSTOM_CLASS = 'CUSTOM_PV_A'
 SHARING = 'MISC_SHARES_VIA_AGGREGATE'
@@ -443,7 +447,8 @@ def delete_rp_traits(draw, d, v, u=None):
 
 def put_rp_aggregates(draw, d, v, u=None, defect=None):
     u = u or draw(st.sampled_from(existing(d)))
-    aggs = draw(st.lists(st.sampled_from(AGGS), max_size=3, unique=True))
+    aggs = draw(st.lists(st.sampled_from(AGGS + AGGS + ODD_AGGS), max_size=3,
+                         unique=True))
     labels = []
     cur = {a for (p, a) in d.rp_aggs if p == u}
     if set(aggs) == cur:
